@@ -1104,3 +1104,63 @@ func runCAPTURED(c *Ctx) {
 		}
 	}
 }
+
+// ---- SHAREDSELF ----------------------------------------------------------------------
+
+func init() {
+	Register(&Rule{ID: "SHAREDSELF", Props: []string{"C13", "C16"}, Min: 1,
+		Doc: "ToShared hands out a node that is already shared (persisted or loaded) as it is: some successful return yields the receiver, and the copying call (xcopy) sits on the edge where receiver.shared is false — otherwise every Clone/Cursor of an unmodified tree holds an unsaved duplicate of the top node, reports dirty and rewrites it.",
+		Run: func(c *Ctx) {
+			P := c.P
+			toShared := c.MustFunc("(*mastNode).ToShared")
+			if toShared == nil {
+				return
+			}
+			ei := ir.ErrorResultIndex(toShared.Signature)
+			recv := toShared.Params[0]
+			// (2b) a node that is already shared is handed out as it is: copying it would give the clone a private, unsaved
+			// duplicate of a persisted node (the clone of an unmodified tree would report dirty and rewrite its top node)
+			{
+				returnsSelf := false
+				for _, r := range ir.Returns(toShared) {
+					if ei >= 0 && !ir.IsNilConst(r.Results[ei]) {
+						continue
+					}
+					if ir.ResolveCell(r.Results[0]) == ssa.Value(recv) {
+						returnsSelf = true
+					}
+				}
+				var f *Finding
+				if !returnsSelf {
+					f = c.Violation(toShared, P.Pos(toShared.Pos()), "ToShared copies nodes that are already shared",
+						"ToShared no longer returns a shared receiver unchanged: every Clone (and every Cursor) now duplicates the persisted top node into an unsaved copy, so an unmodified clone reports itself dirty and MakeRoot rewrites a node although nothing was modified")
+				} else {
+					// …and no copy is made on the shared edge
+					for _, ci := range CallsOf(toShared) {
+						callee := ir.Callee(ci.Common())
+						if callee == nil || callee.Name() != "xcopy" {
+							continue
+						}
+						guarded := false
+						for _, fc := range ir.FactsAt(ci.Block()) {
+							cond, truth := fc.Cond, fc.Truth
+							if u, ok := cond.(*ssa.UnOp); ok && u.Op == token.NOT {
+								cond, truth = u.X, !truth
+							}
+							if ld, ok := cond.(*ssa.UnOp); ok && ld.Op == token.MUL {
+								if fa, ok := ld.X.(*ssa.FieldAddr); ok && isNodePtr(fa.X.Type()) && ir.FieldName(fa.X.Type(), fa.Field) == "shared" && !truth {
+									guarded = true
+								}
+							}
+						}
+						if guarded {
+							c.OK(P.InstrPos(ci), "ToShared copies only unshared nodes", "xcopy on the edge where receiver.shared is false", false)
+						} else {
+							f = c.Violation(toShared, P.InstrPos(ci), "ToShared copies nodes that are already shared", "the copy is made without receiver.shared having been tested false")
+						}
+					}
+				}
+				_ = f
+			}
+		}})
+}
